@@ -539,7 +539,54 @@ func C03ParseSeq(t *C03Type, dial int, seq []C03VerBody) string {
 	return ans
 }
 
+// C03FrameSeq decodes the frames in order on ONE JTMessage, each from a buffer of its own, and answers the last
+// decode.  The same history is then replayed with every frame copied IN PLACE into one buffer (a read loop's
+// buffer, overwritten by its owner between decodes): what the receiver kept from an earlier decode - slices into
+// that buffer included - must not show, so the answer must be the same; if it is not, the answer says so (and
+// differs from the model's).
 func C03FrameSeq(frames [][]byte, tail []byte) (ans string) {
+	ans = c03FrameSeqOwn(frames, tail)
+	if len(frames) < 2 {
+		return ans
+	}
+	if again := c03FrameSeqInPlace(frames, tail); again != ans {
+		return "inplace-differs own-buffers{" + ans + "} one-buffer{" + again + "}"
+	}
+	return ans
+}
+
+func c03FrameSeqInPlace(frames [][]byte, tail []byte) (ans string) {
+	defer func() {
+		if r := recover(); r != nil {
+			ans = "panic"
+		}
+	}()
+	n := 0
+	for _, f := range frames {
+		n = max(n, len(f))
+	}
+	buf := make([]byte, n+len(tail))
+	m := jt808.NewJTMessage()
+	for i, f := range frames {
+		copy(buf, f)
+		in := buf[:len(f)]
+		if i == len(frames)-1 {
+			copy(buf[len(f):], tail)
+			in = buf[:len(f) : len(f)+len(tail)]
+		}
+		err := m.Decode(in)
+		if i == len(frames)-1 {
+			if err != nil {
+				return ProtoErrCode(err)
+			}
+			_ = m.Header.String()
+			return CanonMsg(m)
+		}
+	}
+	return "none"
+}
+
+func c03FrameSeqOwn(frames [][]byte, tail []byte) (ans string) {
 	defer func() {
 		if r := recover(); r != nil {
 			ans = "panic"
